@@ -181,8 +181,11 @@ def abandon_oracle(case):
 #     request and nobody creates it -> the create must be `ok C` (KB.C01Repair.create_over_repaired_deletion_succeeds;
 #     the creator before the fix answered `cf`: old_creator_cf_on_still_deleted_key);
 #   late (M > C): the record the creator reads again is a deletion ABOVE its own revision; writing C over M|deleted
-#     would break the per-key revision order (C02) - `cf C` is the expected, justified answer
-#     (KB.C01Repair.create_cf_when_repair_is_later: `Refuses` at the moment after the rewrite);
+#     would break the per-key revision order (C02), so the create cannot succeed at C - but the key IS absent and the
+#     condition "absent" did not fail: since /repo 42e5238 the answer is an ERROR (`done c1 create err other`, the
+#     client tries again with a fresh revision; KB.C01Repair.create_error_when_repair_is_later). `cf` here is the
+#     defect that commit repaired (KB.C01Repair.old_creator_cf_when_repair_is_later) - we had judged it "justified"
+#     in the first round, an auditor showed it is not (/tmp/auditout4-U1/1): same oracle, same signature;
 #   random: the three steps of R placed anywhere among c1's steps (the model says which of the two it is, or that the
 #     repair found nothing to do because the create had already landed).
 
@@ -237,10 +240,10 @@ def create_vs_repair_case(seed, i, engine, variant):
 
 def create_vs_repair_oracle(case):
     """C01, last clause, on the implementation's transcript alone: the create c1 of k was answered 'condition failed'
-    at revision C although (a) every point read of k between the landed delete and the answer said 'absent', (b) no
-    event other than deletions was delivered for k after its first create, and (c) every deletion delivered for k has a
-    revision BELOW C. Then k was deleted below C at every moment of the request and nobody created it: the key never
-    differed from what a create expects."""
+    at revision C although (a) every point read of k between the landed delete and the answer said 'absent' and (b) no
+    event other than deletions was delivered for k after its first create. Then k was deleted at every moment of the
+    request and nobody created it: the key never differed from what a create expects - whatever revisions its deletion
+    record went through (below C: eb6d1d1; at or above C: 42e5238 - there the right answer is an error)."""
     from .. import hist
     k = hx(CVR_KEY)
     began = None
@@ -274,21 +277,22 @@ def create_vs_repair_oracle(case):
     if any(typ != "D" for (typ, _r) in later):
         return None
     dels = [rev for (typ, rev) in later if typ == "D"]
-    if any(rev >= C for rev in dels):
-        return None          # deleted at / above the create's revision: a justified refusal
     return ("line %d: `%s` - the create of %s (c1) was answered 'condition failed' at revision %d although the key read "
             "'absent' at every one of the %d point reads taken between its delete and that answer (lines %s), nobody "
             "created it (events for the key after its first create: %s) and the only thing that happened to it was the "
             "repair of the delete whose outcome was unknown: its revision record was rewritten from one deletion to another "
-            "(deletion revisions delivered: %s, all below %d). The key never differed from what a create expects" % (
+            "(deletion revisions delivered: %s; %s). The key never differed from what a create expects" % (
                 ended + 1, case.lines[ended], CVR_KEY.decode(), C, len(reads), ",".join(str(i + 1) for (i, _v) in reads),
-                later or "none", dels or "none", C), "create-cf-on-deleted-key-after-repair")
+                later or "none", dels or "none",
+                "all below %d" % C if all(rev < C for rev in dels) else
+                "one at or above %d: the create cannot succeed at %d, but the answer to that is an error, not a failed condition" % (C, C)),
+            "create-cf-on-deleted-key-after-repair")
 
 
 def create_vs_repair_cases(seed, tier):
     if tier == "quick":
         return [create_vs_repair_case(seed, 0, "memkv", "early"), create_vs_repair_case(seed, 1, "tikv", "early"),
-                create_vs_repair_case(seed, 2, "badger", "late")]
+                create_vs_repair_case(seed, 2, "badger", "late"), create_vs_repair_case(seed, 3, "memkv", "late")]
     cases = [create_vs_repair_case(seed, 3 * j + e, eng, v) for j, v in enumerate(("early", "late")) for e, eng in enumerate(ENGINES)]
     cases += [create_vs_repair_case(seed, 100 + i, ENGINES[i % 3], "random") for i in range(36)]
     return cases
